@@ -1,7 +1,420 @@
-"""C12 — not implemented yet (fail closed)."""
-from ..model import AnalysisError
+"""C12 No rule line is lost without a trace — error discipline of the text builders."""
+
+from __future__ import annotations
+
+import ast
+from typing import Dict, List, Optional, Set, Tuple
+
+from ..cfg import Node, exc_is_subclass, handler_classes
+from ..core import Ctx, Report, snippet, where
+from ..fold import known
+from ..model import Func, own_nodes, src
+from ..pathsem import function_paths, resolve_local
+from .common import chain, deep_resolve, loop_body_paths, mentions, names_in, order_of
+
 PROPERTY = "C12"
 LEVEL = "other"
-EXPLANATION = "not implemented"
-def run(ctx, rep, tier):
-    raise AnalysisError("rules for C12 are not implemented yet")
+EXPLANATION = (
+    "Decides, for Acl(line=), AceGroup(line=), AddrGroup(line=/items=): on every path a body line ends as an item, or "
+    "matches one of the three documented ignorable prefixes, or passes a log call whose message contains the line, or "
+    "an exception escapes; handlers catch exactly ValueError/NetmaskValueError and every handler that can skip a line "
+    "logs it; the builders ask for warnings; item order equals line order with at most one item per line; the action "
+    "vocabulary of the line classifier equals ACTIONS. Does not decide that a *valid* line is never rejected by the "
+    "ACE parser (C01/C20 territory)."
+)
+ASSUMPTIONS = ["logging.warning/debug emit a record (handlers/levels are the user's configuration)"]
+
+TRIAGED_HANDLER_CLASSES = {"ValueError", "NetmaskValueError"}
+DOCUMENTED_SKIPS = {"statistics ", "description ", "ignore "}
+LOG_WARN = {"warning", "error", "critical", "exception"}
+LOG_ANY = LOG_WARN | {"info", "debug", "log"}
+
+
+def _log_calls(node_ast: ast.AST) -> List[ast.Call]:
+    out = []
+    for x in ast.walk(node_ast):
+        if isinstance(x, ast.Call) and isinstance(x.func, ast.Attribute) and isinstance(x.func.value, ast.Name) and x.func.value.id in ("logging", "logger", "log"):
+            out.append(x)
+    return out
+
+
+def _path_logs(path, env: Dict[str, ast.AST], names: Set[str], levels: Set[str]) -> Optional[ast.Call]:
+    """A logging call on the path whose message (locals resolved) mentions one of `names`."""
+    for node, lab in path:
+        if node.ast is None or node.kind != "stmt":
+            continue
+        for c in _log_calls(node.ast):
+            if c.func.attr not in levels:
+                continue
+            for a in list(c.args) + [k.value for k in c.keywords]:
+                if _names_closure(a, env) & names:
+                    return c
+    return None
+
+
+def _names_closure(expr: ast.AST, env: Dict[str, ast.AST]) -> Set[str]:
+    """Names in expr plus, transitively, the names their path bindings are built from."""
+    seen: Set[str] = set()
+    work = list(names_in(expr))
+    while work:
+        n = work.pop()
+        if n in seen:
+            continue
+        seen.add(n)
+        if n in env:
+            work.extend(names_in(env[n]))
+    return seen
+
+
+def r12_1(ctx: Ctx, rep: Report) -> None:
+    rep.rule("R12.1")
+    f = ctx.func("AceGroup._line_to_oace")
+    rep.require("warning" in f.params and "line" in f.params, "AceGroup._line_to_oace lost its line/warning parameters")
+    cfg = ctx.cfg(f, {"warning": True})
+    paths = function_paths(cfg)
+    rep.instance(len(paths))
+    rep.floor(4, "paths of _line_to_oace under warning=True")
+    skip_lists: Set[str] = set()
+    for p in paths:
+        if p.raises:
+            rep.ok("_line_to_oace: raising path", "the construction fails with an error", nontrivial=False, where=where(f))
+            continue
+        r = p.ret
+        is_none = r is None or (isinstance(r, ast.Constant) and r.value is None)
+        empty_line = any(src(t) == "line" and not truth for t, truth in p.atoms)
+        if not is_none:
+            rr = deep_resolve(r, p.env)
+            built = rr is not None and any(isinstance(x, ast.Call) and "line" in {a.id for a in ast.walk(x) if isinstance(a, ast.Name)} for x in ast.walk(rr))
+            if built:
+                rep.ok(f"_line_to_oace: return {snippet(r, 40)}", f"object built from the line ({snippet(rr, 50)})", where=where(f))
+            else:
+                rep.violation(f.qualname, f"return {snippet(r)}", "the returned object is not built from the line", where(f))
+            continue
+        if empty_line:
+            rep.ok("_line_to_oace: empty line", "returns None (nothing to account for)", nontrivial=False, where=where(f))
+            continue
+        log = _path_logs(p.nodes, p.env, {"line"}, LOG_WARN)
+        skipped = None
+        for t, truth in p.atoms:
+            if truth and isinstance(t, ast.Call) and isinstance(t.func, ast.Attribute) and t.func.attr == "startswith" and src(t.func.value) == "line":
+                skipped = t
+        if log is not None:
+            rep.ok(f"_line_to_oace: None after {snippet(log, 40)}", "the dropped line is named in a warning record", where=where(f, log))
+        elif skipped is not None:
+            # the prefix must come from the documented list (checked in R12.6)
+            arg = skipped.args[0] if skipped.args else None
+            rep.ok(f"_line_to_oace: None after line.startswith({snippet(arg) if arg is not None else ''})", "documented ignorable prefix", where=where(f, skipped))
+        else:
+            atoms = "; ".join(f"{snippet(t, 30)}={'T' if tr else 'F'}" for t, tr in p.atoms)
+            rep.violation(
+                f.qualname,
+                f"return None on path [{atoms}]",
+                "a non-empty line is dropped on a path with no warning record that names it and no documented ignorable prefix",
+                where(f),
+                path=[repr(n) for n, _ in p.nodes],
+                inp='Acl("ip access-list extended A\\n permit ip any any\\n permit foo bar")',
+            )
+
+
+def r12_2(ctx: Ctx, rep: Report) -> None:
+    rep.rule("R12.2")
+    target = ctx.func("AceGroup._line_to_oace")
+    widx = target.params.index("warning") - 1
+    n = 0
+    for q in ("Acl.line.setter", "AceGroup.line.setter"):
+        f = ctx.func(q)
+        calls = [e.site for e in ctx.cg.all_edges(f) if e.target is target and isinstance(e.site, ast.Call)]
+        calls = list({id(c): c for c in calls}.values())
+        if not calls:
+            rep.instance()
+            rep.violation(q, "line -> item conversion", "the builder no longer converts body lines through _line_to_oace (the reporting converter)", where(f))
+            continue
+        for c in calls:
+            n += 1
+            rep.instance()
+            val = None
+            for k in c.keywords:
+                if k.arg == "warning":
+                    val = k.value
+            if val is None and widx < len(c.args):
+                val = c.args[widx]
+            if isinstance(val, ast.Constant) and val.value is True:
+                rep.ok(f"{q}: {snippet(c, 50)}", "asks for a warning on dropped lines", where=where(f, c))
+            else:
+                rep.violation(q, snippet(c), "the builder does not ask for warnings: invalid lines vanish silently", where(f, c), inp='Acl("ip access-list extended A\\n permit foo bar")')
+    rep.floor(2, "builder calls of _line_to_oace")
+
+
+def r12_3(ctx: Ctx, rep: Report) -> None:  # noqa: C901
+    rep.rule("R12.3")
+    count = 0
+    for f in ctx.prog.funcs:
+        for t in own_nodes(f.node):
+            if not isinstance(t, ast.Try):
+                continue
+            for hi, h in enumerate(t.handlers):
+                count += 1
+                rep.instance()
+                classes = handler_classes(h)
+                label = f"except {', '.join(classes) or '<bare>'}"
+                wide = [c for c in classes if c not in TRIAGED_HANDLER_CLASSES]
+                if not classes or wide:
+                    rep.violation(f.qualname, label, "handler widened beyond the triaged ValueError/NetmaskValueError: programming errors are swallowed and lines disappear", where(f, h))
+                    continue
+                # order: a narrower re-raising handler must come before the wider one
+                for later in t.handlers[hi + 1 :]:
+                    for lc in handler_classes(later):
+                        if any(exc_is_subclass(lc, c) and lc != c for c in classes):
+                            rep.violation(f.qualname, f"{label} before except {lc}", "the wider handler shadows the narrower one", where(f, h))
+                body = [s for s in h.body]
+                leaves = [x for s in body for x in ast.walk(s) if isinstance(x, (ast.Continue, ast.Break, ast.Return))]
+                always_raise = isinstance(body[-1], ast.Raise) and not leaves
+                if always_raise:
+                    rep.ok(f"{f.qualname}: {label}", "re-raises", where=where(f, h))
+                    continue
+                if not leaves:
+                    # conversion handler: construction of the same object continues
+                    cond_raise = any(isinstance(x, ast.Raise) for s in body for x in ast.walk(s))
+                    rep.ok(f"{f.qualname}: {label}", "conversion (no line is skipped)" + ("; re-raises what it cannot convert" if cond_raise else ""), nontrivial=False, where=where(f, h))
+                    continue
+                # drop handler: must log the item, or every caller reports the sentinel
+                names = set()
+                for s in t.body:
+                    for x in ast.walk(s):
+                        if isinstance(x, ast.Call):
+                            for a in list(x.args) + [k.value for k in x.keywords]:
+                                names |= names_in(a)
+                names -= {"self"}
+                logged = None
+                env: Dict[str, ast.AST] = {}
+                for s in body:
+                    for x in ast.walk(s):
+                        if isinstance(x, ast.Assign) and isinstance(x.targets[0], ast.Name):
+                            env[x.targets[0].id] = x.value
+                uncond = True
+                for s in body:
+                    for c in _log_calls(s):
+                        for a in list(c.args) + [k.value for k in c.keywords]:
+                            if _names_closure(a, env) & names:
+                                logged = c
+                                # the log call must not be guarded by anything but a parameter specialised to True
+                                par = getattr(c, "_parent", None)
+                                while par is not None and par is not h:
+                                    if isinstance(par, ast.If) and not (isinstance(par.test, ast.Name) and par.test.id == "warning"):
+                                        uncond = False
+                                    par = getattr(par, "_parent", None)
+                if logged is not None and uncond:
+                    rep.ok(f"{f.qualname}: {label}", f"skips the item after {snippet(logged, 40)} naming it", where=where(f, h))
+                    continue
+                # sentinel return whose callers report
+                rets = [x for x in leaves if isinstance(x, ast.Return)]
+                if rets and all(x.value is None or (isinstance(x.value, ast.Constant) and x.value.value is None) for x in rets) and len(rets) == len(leaves):
+                    callers_ok, detail = _callers_report(ctx, f)
+                    if callers_ok:
+                        rep.ok(f"{f.qualname}: {label}", f"returns None; {detail}", where=where(f, h))
+                        continue
+                    rep.violation(f.qualname, label, f"the handler drops the item by returning None and {detail}", where(f, h))
+                    continue
+                rep.violation(f.qualname, label, "the handler skips the current line/member without a log record that names it", where(f, h), inp="a body line with an invalid address")
+    rep.floor(5, "exception handlers in the package")
+
+
+def _callers_report(ctx: Ctx, g: Func) -> Tuple[bool, str]:
+    """Every caller of g logs (naming its argument) or raises on the path where g's result is falsy."""
+    callers = []
+    for f in ctx.prog.funcs:
+        for e in ctx.cg.all_edges(f):
+            if e.target is g and isinstance(e.site, ast.Call) and not e.weak:
+                callers.append((f, e.site))
+    if not callers:
+        return False, "no caller found that could report it"
+    for f, call in callers:
+        cfg = ctx.cfg(f)
+        node = cfg.node_containing(call)
+        if node is None or not isinstance(node.ast, (ast.Assign, ast.AnnAssign)):
+            return False, f"{f.qualname} does not keep the result to test it"
+        tgt = node.ast.targets[0] if isinstance(node.ast, ast.Assign) else node.ast.target
+        if not isinstance(tgt, ast.Name):
+            return False, f"{f.qualname} does not keep the result in a local"
+        var = tgt.id
+        argnames = set()
+        for a in list(call.args) + [k.value for k in call.keywords]:
+            argnames |= names_in(a)
+        ok = False
+        for p in function_paths(cfg):
+            falsy = any(src(t) == var and not truth for t, truth in p.atoms)
+            if not falsy:
+                continue
+            if p.raises or _path_logs(p.nodes, p.env, argnames, LOG_ANY) is not None:
+                ok = True
+            else:
+                return False, f"{f.qualname} continues silently when the result is None"
+        if not ok:
+            return False, f"{f.qualname} never tests the result"
+    return True, "every caller logs the item when the result is None (" + ", ".join(sorted({f.qualname for f, _ in callers})) + ")"
+
+
+def r12_4(ctx: Ctx, rep: Report) -> None:
+    rep.rule("R12.4")
+    for q, param in (("Acl.line.setter", "line"), ("AceGroup.line.setter", "line"), ("AddrGroup.line.setter", "line"), ("AddrGroup.items.setter", "items"), ("AceGroup.items.setter", "items"), ("Acl.items.setter", "items")):
+        f = ctx.func(q)
+        stores = []
+        for n in own_nodes(f.node):
+            if isinstance(n, ast.Assign):
+                for t in n.targets:
+                    if isinstance(t, ast.Attribute) and src(t.value) == "self" and t.attr in ("items", "_items"):
+                        stores.append(n)
+        rep.instance()
+        if not stores:
+            rep.violation(q, "self.items = ...", "the builder never stores the parsed items", where(f))
+            continue
+        st = stores[-1]
+        state, why = order_of(ctx, f, st.value)
+        if state == f"ordered:{param}":
+            rep.ok(f"{q}: {snippet(st, 50)}", f"same order as the input ({why})", where=where(f, st))
+        elif state.startswith("ordered:"):
+            rep.violation(q, snippet(st), f"the stored items follow {state.split(':', 1)[1]}, not the input {param}", where(f, st))
+        else:
+            rep.violation(q, snippet(st), f"item order is not line order: {state} ({why})", where(f, st), inp="lines in non-sorted order")
+        # at most one element per input line: each loop iteration appends at most once
+        cfg = ctx.cfg(f)
+        acc = src(st.value) if isinstance(st.value, ast.Name) else None
+        if acc:
+            for loop in [n for n in cfg.live if n.kind == "for"]:
+                worst = 0
+                for path in loop_body_paths(cfg, loop):
+                    k = 0
+                    for node, lab in path:
+                        if node.kind == "stmt" and node.ast is not None:
+                            for x in ast.walk(node.ast):
+                                if isinstance(x, ast.Call) and isinstance(x.func, ast.Attribute) and x.func.attr in ("append", "extend", "insert") and src(x.func.value) == acc:
+                                    k += 1
+                    worst = max(worst, k)
+                if worst > 1:
+                    rep.violation(q, f"{acc}.append(...) x{worst} in one iteration", "a line can contribute more than one item", where(f))
+
+
+def r12_5(ctx: Ctx, rep: Report) -> None:  # noqa: C901
+    rep.rule("R12.5")
+    for q in ("AddrGroup.line.setter", "AddrGroup.items.setter"):
+        f = ctx.func(q)
+        cfg = ctx.cfg(f)
+        loops = [n for n in cfg.live if n.kind == "for"]
+        rep.require(bool(loops), f"{q}: member loop vanished")
+        # accumulator = the list stored to self.items at the end
+        acc = None
+        for n in own_nodes(f.node):
+            if isinstance(n, ast.Assign):
+                for t in n.targets:
+                    if isinstance(t, ast.Attribute) and src(t.value) == "self" and t.attr in ("items", "_items") and isinstance(n.value, ast.Name):
+                        acc = n.value.id
+        rep.require(acc is not None, f"{q}: accumulator list vanished")
+        loop = loops[0]
+        lvars = names_in(loop.ast.target)
+        # names derived from the loop variable inside the body
+        derived = set(lvars)
+        changed = True
+        while changed:
+            changed = False
+            for n in ast.walk(loop.ast):
+                if isinstance(n, ast.Assign):
+                    tn = set()
+                    for t in n.targets:
+                        tn |= {x.id for x in ast.walk(t) if isinstance(x, ast.Name)}
+                    if names_in(n.value) & derived and not tn <= derived:
+                        derived |= tn
+                        changed = True
+        npaths = 0
+        for path in loop_body_paths(cfg, loop):
+            end = path[-1][0]
+            if end is cfg.raise_exit:
+                continue
+            appended = any(node.kind == "stmt" and node.ast is not None and any(isinstance(x, ast.Call) and isinstance(x.func, ast.Attribute) and x.func.attr == "append" and src(x.func.value) == acc for x in ast.walk(node.ast)) for node, lab in path)
+            if appended:
+                continue
+            npaths += 1
+            rep.instance()
+            env: Dict[str, ast.AST] = {}
+            for node, lab in path:
+                if node.kind == "stmt" and isinstance(node.ast, ast.Assign) and isinstance(node.ast.targets[0], ast.Name):
+                    env[node.ast.targets[0].id] = node.ast.value
+            log = _path_logs(path, env, derived, LOG_ANY)
+            desc = None
+            for node, lab in path:
+                if node.kind == "cond" and lab == "T" and isinstance(node.ast, ast.Call) and isinstance(node.ast.func, ast.Attribute) and node.ast.func.attr == "startswith" and node.ast.args:
+                    v = ctx.folder.fold(node.ast.args[0], f.module)
+                    if v == "description ":
+                        desc = node.ast
+            typeerr = False
+            if log is not None:
+                rep.ok(f"{q}: member skipped after {snippet(log, 40)}", "a log record names it", where=where(f, log))
+            elif desc is not None:
+                rep.ok(f"{q}: member skipped by {snippet(desc, 40)}", "documented description line", where=where(f, desc))
+            else:
+                txt = " -> ".join(repr(n) for n, _ in path[:8])
+                rep.violation(q, "member skipped silently", "a path through the member loop neither appends the member nor logs it nor raises", where(f), path=[repr(n) for n, _ in path], inp="an address-group body line that is not an address")
+        if npaths == 0:
+            rep.note(f"R12.5 {q}: every path through the member loop appends or raises")
+    # empty result raises (line form)
+    f = ctx.func("AddrGroup.line.setter")
+    rep.instance()
+    cfg = ctx.cfg(f)
+    acc = None
+    for n in own_nodes(f.node):
+        if isinstance(n, ast.Assign):
+            for t in n.targets:
+                if isinstance(t, ast.Attribute) and src(t.value) == "self" and t.attr in ("items", "_items") and isinstance(n.value, ast.Name):
+                    acc = n.value.id
+    okempty = False
+    for p in function_paths(cfg):
+        if not p.raises:
+            continue
+        for t, truth in p.atoms:
+            if (isinstance(t, ast.Name) and t.id == acc and not truth) or (src(t) == f"len({acc})" and not truth):
+                okempty = True
+    if okempty:
+        rep.ok("AddrGroup.line.setter: no member parsed", f"raises when {acc} is empty", where=where(f))
+    else:
+        rep.violation("AddrGroup.line.setter", "empty result", "a group whose every member was skipped is built silently instead of failing", where(f))
+
+
+def r12_6(ctx: Ctx, rep: Report) -> None:
+    rep.rule("R12.6")
+    f = ctx.func("helpers.is_line_for_acl")
+    actions = set(ctx.folder.const("helpers", "ACTIONS"))
+    lits: Set[str] = set()
+    for n in own_nodes(f.node):
+        if isinstance(n, ast.Call) and isinstance(n.func, ast.Attribute) and n.func.attr == "startswith" and n.args:
+            v = ctx.folder.fold(n.args[0], f.module)
+            if isinstance(v, str):
+                lits.add(v)
+            elif isinstance(v, (tuple, list)):
+                lits |= set(v)
+    rep.instance()
+    want = {a + " " for a in actions}
+    if lits == want:
+        rep.ok("helpers.is_line_for_acl", f"prefixes {sorted(lits)} = ACTIONS + blank", where=where(f))
+    else:
+        miss, extra = sorted(want - lits), sorted(lits - want)
+        rep.violation("helpers.is_line_for_acl", f"prefixes {sorted(lits)}", f"the ACL-line classifier must accept exactly ACTIONS followed by a blank (missing {miss}, extra {extra}): lines of a missing action are reported as garbage, a prefix without the blank accepts 'permitted ...'", where(f), inp="10 deny ip any any")
+    g = ctx.func("AceGroup._line_to_oace")
+    skips: Set[str] = set()
+    for n in own_nodes(g.node):
+        if isinstance(n, (ast.List, ast.Tuple)) and n.elts and all(isinstance(e, ast.Constant) and isinstance(e.value, str) for e in n.elts):
+            par = getattr(n, "_parent", None)
+            if isinstance(par, (ast.Assign, ast.For, ast.AnnAssign)):
+                skips |= {e.value for e in n.elts}
+    rep.instance()
+    if skips == DOCUMENTED_SKIPS:
+        rep.ok("AceGroup._line_to_oace: ignorable prefixes", str(sorted(skips)), where=where(g))
+    else:
+        rep.violation("AceGroup._line_to_oace", f"ignorable prefixes {sorted(skips)}", f"the documented ignorable lines are {sorted(DOCUMENTED_SKIPS)}: anything else dropped without a warning is a lost line", where(g))
+
+
+def run(ctx: Ctx, rep: Report, tier: str) -> None:
+    r12_1(ctx, rep)
+    r12_2(ctx, rep)
+    r12_3(ctx, rep)
+    r12_4(ctx, rep)
+    r12_5(ctx, rep)
+    r12_6(ctx, rep)
